@@ -247,6 +247,9 @@ pub fn run_lines(lines: &[String], oracles: bool) -> RunResult {
                             let k = if had_loss { "C03" } else { "C06" };
                             fail!("{k} valid event rejected: `{}` -> {tok}", e.tok());
                             fail!("C06 valid event rejected: `{}` -> {tok}", e.tok());
+                            if max_level.is_some() {
+                                fail!("C13 a valid guest stream was rejected under a filtering host: `{}` -> {tok}", e.tok());
+                            }
                             poisoned = true;
                         } else if !reasons.iter().any(|r| format!("r err {}", r.tok()) == tok) {
                             fail!("C06 reported reason `{tok}` is not applicable to `{}` (applicable: {})", e.tok(), reasons.iter().map(Reason::tok).collect::<Vec<_>>().join(" | "));
@@ -256,6 +259,14 @@ pub fn run_lines(lines: &[String], oracles: bool) -> RunResult {
                         }
                         if !sys.spec.alive.is_empty() {
                             n_rejected_with_state += 1;
+                        }
+                    }
+                }
+                if let (Some(m), Ok(Ok(())), Ev::NewEvent { mt, .. }) = (max_level, &res, &e) {
+                    // C13: an event the host enables is delivered (whatever happened to its ancestors)
+                    if let Some(site) = sys.spec.known.get(mt) {
+                        if reasons.is_empty() && !wild && site.level <= m && !delta.iter().any(|l| l.starts_with("c evt ")) {
+                            fail!("C13 an event the host enables was not delivered: `{}`", e.tok());
                         }
                     }
                 }
@@ -806,10 +817,15 @@ impl Suite for Receiver {
             "C04" => [0, 2, 2, 4][idx % 4],
             "C02" => [0, 0, 5][idx % 3],
             "C03" => [0, 3, 3][idx % 3],
+            "C13" => 8,
             _ => idx % 6,
         };
         let mut g = Guest::default();
         let mut snap = g.clone();
+        if focus == "C13" {
+            // a host with a level filter; well-formed streams across kept / lost local maps
+            lines.push(format!("host filter {}", rng.below(5)));
+        }
         if rng.chance(1, 4) {
             lines.push(format!("host base {}", rng.range(1, 2)));
         }
@@ -853,12 +869,14 @@ impl Suite for Receiver {
                         0 | 1 | 7 => rng.chance(1, 8),
                         2 | 4 => rng.chance(1, 6),
                         5 => rng.chance(1, 5),
+                        8 => rng.chance(1, 5),
                         _ => false,
                     };
                     if cut && k + 1 < len {
                         let quiescent = g.spans.values().all(|s| s.entered == 0);
                         let op = match kind {
                             5 => if quiescent { "h persist keep" } else { continue },
+                            8 => *rng.pick(&["h persist keep", "h persist keep", "h persist lose"]),
                             2 | 4 => *rng.pick(&["h discard", "h persist keep", "h persist lose", "h discard"]),
                             _ => *rng.pick(&["h persist keep", "h persist keep", "h persist lose", "h persist losenew", "h discard"]),
                         };
